@@ -8,6 +8,7 @@ import (
 
 	"github.com/google/uuid"
 	"github.com/hydraide/hydraide/app/panichandler"
+	"github.com/hydraide/hydraide/app/verifhook"
 )
 
 type Lock interface {
@@ -79,6 +80,7 @@ func (q *queue) enqueue(c *caller) {
 	if wasEmpty {
 		close(c.ready)
 	}
+	verifhook.Point("lock.enqueue", verifhook.Ref(q), verifhook.Ref(c), int64(len(q.callers)))
 }
 
 // remove deletes the caller with the given id from the queue. If the removed
@@ -101,8 +103,10 @@ func (q *queue) remove(id string) bool {
 			// Wake the next waiter.
 			close(q.callers[0].ready)
 		}
+		verifhook.Point("lock.remove", verifhook.Ref(q), verifhook.Ref(c), int64(i), int64(len(q.callers)))
 		return true
 	}
+	verifhook.Point("lock.remove.miss", verifhook.Ref(q))
 	return false
 }
 
